@@ -407,16 +407,36 @@ def run(ck):
             bad = 'emission loop not recognised'
         ck.verdict(bad is None, 'C13.c', fn, where,
                    'prefix = sum of unread counts; every emitted chunk is its unread region and is non-empty' if bad is None else bad)
-        # loop ranges: i from active while i < chunks
-        f = u.fn(fn)
-        loops = [x for x in cast.walk(f) if cast.kind(x) == 'ForStmt']
-        okr = bool(loops)
-        for lp in loops:
-            init_txt = cast.src_text(lp['inner'][0])
-            cond_txt = cast.src_text(lp['inner'][2])
-            if 'active' not in init_txt or 'chunks' not in cond_txt or '<' not in cond_txt or '<=' in cond_txt:
-                okr = False
-        ck.verdict(okr, 'C13.c', fn + ':range', where, 'loops run over [active, chunks)' if okr else 'a chunk loop does not run over [active, chunks)')
+        # loop ranges from the resolved program: the index starts at `active` (pre-loop value of the
+        # loop-carried index) and every iteration is guarded by index < chunks; the exit needs chunks <= index
+        okr = True
+        nloops = 0
+        seen_loops = set()
+        for p in ps:
+            for lnode, lmap in p.loops:
+                if id(lnode) in seen_loops:
+                    continue
+                seen_loops.add(id(lnode))
+                nloops += 1
+                idx = [(k_, h, pre) for k_, (h, pre) in lmap.items() if k_[0] == 'v' and pre is not None and 'active' in fmt(pre)]
+                if not idx:
+                    okr = False
+                    continue
+        for p in ps:
+            if p.end == 'loopback' and p.loops:
+                lmap = p.loops[-1][1]
+                idx = [(k_, h, pre) for k_, (h, pre) in lmap.items() if k_[0] == 'v' and pre is not None and 'active' in fmt(pre)]
+                if not idx:
+                    continue
+                k_, h, pre = idx[0]
+                guard = [c for c in p.cond_terms() if c[0] == 'cmp' and c[1] == '<' and c[2] == h and 'chunks' in fmt(c[3])]
+                if not guard:
+                    okr = False
+                d = L(sym.mem_read(p.mem, k_, h)) - L(h)
+                if not (d.is_const() and d.c == 1):
+                    okr = False
+        ck.verdict(okr and nloops >= 1, 'C13.c', fn + ':range', where,
+                   'chunk loops start at active, step by one and run while index < chunks' if okr and nloops else 'a chunk loop does not run over [active, chunks)')
 
     # ---- C13.e decoder --------------------------------------------------------------------
     fn = 'flenp_memory_from_source'
